@@ -115,6 +115,13 @@ CHECKS = {
             "Verbatim/verbatim*/\\verb/\\verb* bodies built from adversarial fragments (partial end markers, %, ^^, braces, blank runs, non-ASCII; the end delimiter destroyed by construction) with every legal \\verb delimiter: textContent == body exactly and the text after the construct is processed normally. Formulas of a depth<=4 grammar in 12 placements with 0-3 user macros: tokens(node.source) == tokens(expected) blanks aside, and the same for the \\( \\) / \\[ \\] payloads of HTML5 output after unescaping and the documented < -> \\lt mapping. Exploration.",
             "Trusted: models/mathtok.py (token splitter and parameter-substitution expander, no plasTeX import); plasTeX's documented delimiters for reconstructed math; identity expectation for verbatim bodies incl. framing newlines.",
             "DESIGN.md C11"),
+
+    "C05": ("hypothesis",
+            "exploration",
+            "property-based testing: calls rendered from generated values against generated signatures (expected binding known by construction); numeric literals against an exact-arithmetic transcription of TeX's scan_int/scan_dimen/scan_glue",
+            "Generated signatures (1-6 arguments, every delimiter kind and type, *, =) x conforming calls rendered from generated values (nested groups/brackets, brackets hidden in braces, optionals present/absent, continuation text): every name bound to its value, argSource and the exact remaining text checked, parameter-enable switch balanced; the same through TeX.readArgument directly. Structurally generated integer/dimension/glue literals (sign runs, four radices, character constants, fractions, 11 units, true, fil orders, registers) followed by arbitrary tokens compared with models/texnum.py (integers and fil order exactly, dimensions within 2 sp of TeX's or of the exact value) including what is left unconsumed. Exploration.",
+            "Trusted: models/texnum.py (tex.web 102-107, 404-462 in integer/Fraction arithmetic); em/ex estimates and register defaults read from plasTeX as data. Seven known findings listed (number look-ahead executes the next token, \\value as digits, integer registers as coefficients, macro-produced keywords, 'fil l'), excluded by construction.",
+            "DESIGN.md C05"),
 }
 
 PENDING_REASON = "check not built yet in this session (planned, see DESIGN.md section 7); nothing is claimed for it"
